@@ -1,6 +1,7 @@
 import CattrsModel.Conv.Driver
 import CattrsModel.FieldConv.Model
 import CattrsModel.FieldConv.History
+import CattrsModel.FieldConv.Presence
 /-!
 # Line-protocol operations of the field-converter model (driver only; no theorem depends on this file)
 
@@ -17,6 +18,8 @@ import CattrsModel.FieldConv.History
               `ValueError`) | `(ty <type term>)`;
               `<conv>` = `-` | `(k <kind> <tag>)`, kind `tag` (never raises), `boom` (raises on the string "boom"),
               `needint` (raises unless the argument is exactly an `int`); a converter returns the tuple `(tag, x)`;
+              `(kf <kind> <tag>)` = the same converter as a callable OBJECT whose truth value is `False`
+              (`FieldConv/Presence.lean`: the interpretive path tests the converter by truthiness);
               `<dflt>` = `-` | `(c <obj>)`
 * `<payload>` a dict object with string keys (dict strategy) or a list/tuple object (tuple strategy)
 
@@ -103,6 +106,12 @@ def ffOfSexp : Sexp → Option (FField FTy)
         | _ => Option.none)
       some { name := name, ty := ty, conv := conv, dflt := dflt }
   | _ => Option.none
+
+/-- a field with the truth value of its converter object: `(kf …)` = falsy -/
+def pfOfSexp : Sexp → Option (Presence.PField FTy)
+  | .list [.atom "ff", name, ty, .list [.atom "kf", kind, tag], dflt] =>
+      (ffOfSexp (.list [.atom "ff", name, ty, .list [.atom "k", kind, tag], dflt])).map (fun f => { f := f, truthy := false })
+  | s => (ffOfSexp s).map (fun f => { f := f, truthy := true })
 
 def strKeys : List (Obj × Obj) → Option (List (String × Obj))
   | [] => some []
@@ -266,7 +275,8 @@ def fieldConvHandle (op : String) (args : List Sexp) : Option Sexp :=
   | "FIELDCONV", [wd, cfg, .list (.atom "fields" :: ffs), payload] => do
       let w ← worldOfSexp wd
       let c ← fcfgOfSexp cfg
-      let fields ← ffs.mapM ffOfSexp
+      let pfs ← ffs.mapM pfOfSexp
+      let fields := pfs.map (·.f)
       let p ← objOfSexp payload
       let env := drvEnv w c
       let scope (o : Sexp) : Sexp := .list [.atom "r", ofBool (scopeLazy env c.fc.prefer fields), ofBool (scopeDeep fields), o]
@@ -274,7 +284,7 @@ def fieldConvHandle (op : String) (args : List Sexp) : Option Sexp :=
         match p with
         | .coll .list xs | .coll .tuple xs =>
           if (rawsTuple fields xs).any (fun a => unmodelledField w c.fc a.1 a.2) then some (scope (.atom "unmodelled"))
-          else some (scope (replyInst (structTuple c.fc env fields xs)))
+          else some (scope (replyInst (Presence.structTupleP c.fc env pfs xs)))
         | _ => some (scope (.atom "unmodelled"))
       else
         match p with
@@ -282,7 +292,7 @@ def fieldConvHandle (op : String) (args : List Sexp) : Option Sexp :=
           match strKeys kvs with
           | some skvs =>
             if (rawsDict fields skvs).any (fun a => unmodelledField w c.fc a.1 a.2) then some (scope (.atom "unmodelled"))
-            else some (scope (replyInst (structDict c.fc env fields skvs)))
+            else some (scope (replyInst (Presence.structDictP c.fc env pfs skvs)))
           | Option.none => some (scope (.atom "unmodelled"))
         | _ => some (scope (.atom "unmodelled"))
   | _, _ => Option.none
